@@ -634,7 +634,7 @@ theorem oversized_block_unreadable (c : Cfg) (fc : FCfg) (h3 : fc.splitsOversize
   rw [hwp, hfin] at hget
   cases hget
   -- the reader rejects the block, and with it the durable one in front of it
-  have hbad := loadFile_badcnt c.r 0 [b0] hwf (mk0 es) rfl (by simp [le32, mk0, mkP])
+  have hbad := loadFile_badcnt c.r 0 [b0] hwf (mk0 es) rfl (by simp [le32, mk0, mkP]) Nat.one_pos
     (mkP_wraps 1 es (by rw [hlen]; decide))
   have hwb : w.buf = es := rfl
   simp only [loadEntries, F, hbad, hwb] at hload
@@ -884,6 +884,8 @@ structure Facts where
   splitsOversizedBuffer : Tri
   /-- `WriteBuffer.Add` / `ShouldFlush` report full at `math.MaxUint16` entries -/
   flushesAtCountBound : Tri
+  /-- readNextBlock takes a zero-filled tail for the end of the data -/
+  zeroTailIsEOF : Tri
   /-- `FileWriter.WriteEntry` returns the error of the flush it triggers (the entry stays queued all the same) -/
   writeEntryReportsFlushError : Tri
   /-- `FileWriter.Close` leaves the file open when it fails (the writer the chronicler keeps stays usable) -/
@@ -913,7 +915,7 @@ structure Facts where
   deriving Repr
 
 def cfgOf (f : Facts) : Cfg :=
-  { r := ⟨f.shortHeaderIsEOF.isYes, f.tornDataIsEOF.isYes, false⟩,
+  { r := ⟨f.shortHeaderIsEOF.isYes, f.tornDataIsEOF.isYes, false, f.zeroTailIsEOF.isYes⟩,
     syncFsyncs := f.syncFsyncs.isYes, closeFsyncs := f.closeFsyncs.isYes,
     truncatesTornTail := f.truncatesTornTail.isYes,
     loadCleansTemp := true, rmTempLocked := true, rmTempFromIndex := true, rmTempCompactor := true }
@@ -933,7 +935,7 @@ def modelApplies (f : Facts) : Bool :=
   f.truncatesTornTail != .unknown && f.clearsBufferBeforeWrite != .unknown && f.rollsBackFailedBlock != .unknown &&
   f.restoresOffsetAfterHeader != .unknown && f.splitsOversizedBuffer != .unknown && f.flushesAtCountBound.isYes &&
   f.closeErrorAborts.isYes && f.writeEntryReportsFlushError != .unknown && f.closeKeepsFileOnError != .unknown &&
-  f.chronKeepsWriterOnCloseError.isYes && readerApplies f
+  f.chronKeepsWriterOnCloseError.isYes && f.zeroTailIsEOF != .unknown && readerApplies f
 
 /-- the defects the current failure handling exposes (each reproduced by the correspondence run;
     `failed_write_drops_entries` is the kernel-checked witness that refutes `Holds`) -/
